@@ -22,6 +22,19 @@ consumed") are compared; ECheck / EGen are projected away from the model's
 trace (`vis`).  `res` is taken from the REAL exit code of the attempt (Some j
 iff the script exited 0) -- the ground truth -- while the status rows are what
 Maestro wrote; the monitor's ledger then checks one against the other.
+
+Studies with SCHEDULED steps go through the same command line with the
+launcher's scripted scheduler adapter (E2E_SCRIPTED): there every adapter call
+is logged, the complete trace is compared (ExecCases.both_ok).
+
+For C05 (exit-code clause):
+
+    from harness import e2e
+    items = e2e.exit_code_cases(random.Random(ck.seed * 31 + 5), 18)     # ~28 runs, ~10-20 s
+    e2e.check_exit_codes(ck, items)        # reports violations / mismatches to ck, fills ck.cov["e2e_exit_codes"]
+
+Entry points: gen_local_study / gen_scripted_study, evaluate / evaluate_scripted,
+exit_code_cases / check_exit_codes, launch, parse_status, read_graph.
 """
 import glob
 import json
